@@ -115,44 +115,44 @@ Print Assumptions c19_reverse_involutive.
 
 (** ** uniq, compact *)
 
-(** No two output elements are equal (Python [==]), every output element is
+(** No two output elements are equal (Liquid [==]: a boolean only equals a boolean), every output element is
     an input element. *)
 Theorem c19_uniq_distinct : forall left,
   exists ys, uniq_nokey left = Ok (FList ys) /\
-    ForallOrdPairs (fun a b => py_eq a b = false) ys /\
+    ForallOrdPairs (fun a b => liq_eq a b = false) ys /\
     (forall x, In x ys -> In x (sequence_arg left)) /\
-    uniq_nokey (FList ys) = Ok (FList (uniq_by py_eq [] (sequence_arg (FList ys)))).
+    uniq_nokey (FList ys) = Ok (FList (uniq_by liq_eq [] (sequence_arg (FList ys)))).
 Proof. exact uniq_nokey_spec. Qed.
 Print Assumptions c19_uniq_distinct.
 
 (** [NoDup], given that [==] is reflexive on the items. *)
 Theorem c19_uniq_NoDup : forall left ys,
-  (forall x, In x (sequence_arg left) -> py_eq x x = true) ->
+  (forall x, In x (sequence_arg left) -> liq_eq x x = true) ->
   uniq_nokey left = Ok (FList ys) -> NoDup ys.
 Proof. exact uniq_nokey_NoDup. Qed.
 Print Assumptions c19_uniq_NoDup.
 
-Theorem c19_eq_reflexive_on_scalars : forall v, is_scalar_val v = true -> py_eq v v = true.
-Proof. exact py_eq_refl_scalar. Qed.
+Theorem c19_eq_reflexive_on_scalars : forall v, is_scalar_val v = true -> liq_eq v v = true.
+Proof. exact liq_eq_refl_scalar. Qed.
 Print Assumptions c19_eq_reflexive_on_scalars.
 
 (** First occurrences, in order: an element is kept exactly when nothing
     before it is equal to it. *)
 Theorem c19_uniq_first_occurrences : forall (prev l1 : list fval) x l2,
-  uniq_by py_eq prev (l1 ++ x :: l2) =
-  uniq_by py_eq prev l1
-  ++ (if existsb (fun y => py_eq y x) (prev ++ l1) then [] else [x])
-  ++ uniq_by py_eq (prev ++ l1 ++ [x]) l2.
-Proof. exact (uniq_by_app py_eq). Qed.
+  uniq_by liq_eq prev (l1 ++ x :: l2) =
+  uniq_by liq_eq prev l1
+  ++ (if existsb (fun y => liq_eq y x) (prev ++ l1) then [] else [x])
+  ++ uniq_by liq_eq (prev ++ l1 ++ [x]) l2.
+Proof. exact (uniq_by_app liq_eq). Qed.
 Print Assumptions c19_uniq_first_occurrences.
 
 (** Every input element has an equal representative in the output (when
     [==] is reflexive and transitive on the items). *)
 Theorem c19_uniq_covers : forall l : list fval,
-  (forall x, In x l -> py_eq x x = true) ->
-  (forall a b c, In a l -> In b l -> In c l -> py_eq a b = true -> py_eq b c = true -> py_eq a c = true) ->
-  forall x, In x l -> exists y, In y (uniq_by py_eq [] l) /\ py_eq y x = true.
-Proof. exact (uniq_by_covers py_eq). Qed.
+  (forall x, In x l -> liq_eq x x = true) ->
+  (forall a b c, In a l -> In b l -> In c l -> liq_eq a b = true -> liq_eq b c = true -> liq_eq a c = true) ->
+  forall x, In x l -> exists y, In y (uniq_by liq_eq [] l) /\ liq_eq y x = true.
+Proof. exact (uniq_by_covers liq_eq). Qed.
 Print Assumptions c19_uniq_covers.
 
 Theorem c19_uniq_idempotent : forall l ys,
@@ -274,6 +274,12 @@ Theorem c19_slice_negative_start : forall l s n,
   Ok (FList (firstn (Z.to_nat n) (skipn (Z.to_nat (Z.of_nat (length l) + s)) l))).
 Proof. exact slice_array_negative_start. Qed.
 Print Assumptions c19_slice_negative_start.
+
+Theorem c19_slice_out_of_range : forall l s n,
+  (- 2 ^ 63 <= s < - Z.of_nat (length l))%Z -> (- 2 ^ 63 <= n <= 2 ^ 63 - 1)%Z ->
+  slice_f (FList l) (FInt s) (Some (FInt n)) = Ok (FList []).
+Proof. exact slice_array_out_of_range. Qed.
+Print Assumptions c19_slice_out_of_range.
 
 (** ** The string-property form equals the lambda form
     ([lam_of k v] is [i => i.k == v], or [i => i.k] when there is no value;
